@@ -25,7 +25,9 @@ def to_tiny(y):
 def synth(scope, rng=None, n_random=0):
     """Synthetic raw eras/rules covering the full product of admissible values per encoded field
     (each field's whole value set, combined cyclically), plus n_random entries whose fields are drawn independently."""
-    years = list(range(1874, 2126)) + [MIN_YEAR, MAX_YEAR]
+    # every year the compiler admits (transformer.is_year_tiny: 1872..2127) plus the two markers; 1872/1873 and 2126/2127 share
+    # their codes with the invalid / min / max markers in MEANING, but the code written must still be year - 2000
+    years = list(range(1872, 2128)) + [MIN_YEAR, MAX_YEAR]
     deltas = [m * 60 for m in range(-60, 166, 15)]                       # -1:00 .. +2:45
     offsets = [m * 60 for m in (range(-720, 841) if scope == 'extended' else range(-720, 841, 15))]
     ons = [(dow, dom) for dow in range(0, 8) for dom in range(-31, 32)]
@@ -316,7 +318,7 @@ def run(tier):
         "distinct_nontrivial": sum(n for k, n in counters.items() if k.endswith("distinct_field_values")),
         "rule": "(A) the real ArduinoGenerator is handed synthetic raw eras/rules covering AT/UNTIL 0:00..25:00 every minute x {w,s,u}, "
                 "STDOFF -12:00..+14:00 every minute (basic: every 15 min), SAVE -1:00..+2:45 in 15-min steps on rules and fixed-RULES "
-                "eras, FROM/TO 1874..2125 + min + max, UNTIL years 1874..2126 + max, months, days, all ON (weekday, day) pairs, single "
+                "eras, FROM/TO 1872..2127 + min + max, UNTIL years 1874..2126 + max, months, days, all ON (weekday, day) pairs, single "
                 "and up to 31 multi-character letters per policy; the generated tables are compiled and every field is read back "
                 "through ZoneInfo/ZoneEra/ZonePolicy/ZoneRule brokers (codec driver, ASan+UBSan) and compared with the value given. "
                 "(B) tzcompiler.py (subprocess, recorded flags) is run on the lines recorded beside the shipped zonedb/zonedbx tables: "
